@@ -2,7 +2,7 @@
 from ..core import ints, hx
 from . import _plan
 ID = "C13"
-PROPS = ["F1Verif.Props.C13", "F1Verif.Props.FactsC13", "F1Verif.Props.C15", "F1Verif.Props.Pipeline", "F1Verif.Props.RefineC13", "F1Verif.Props.RefineC13Q", "F1Verif.Props.FloatSpec", "F1Verif.Props.C13Float"]
+PROPS = ["F1Verif.Props.C13", "F1Verif.Props.FactsC13", "F1Verif.Props.C15", "F1Verif.Props.Pipeline", "F1Verif.Props.RefineC13", "F1Verif.Props.RefineC13Q", "F1Verif.Props.FloatSpec", "F1Verif.Props.C13Float", "F1Verif.Props.RefineC14B"]
 RULE = ("relational correspondence on api.WithJitter (random source internal): the harness logs (rate_k, out_k) for "
         "scripted rate sequences — constant, bursty (R,0), (R,0,0,0), zero-heavy, ramps, small rates 1-3, large rates — "
         "at jitter 0, 0.5, 2, 12.25, 20, 50, 75, 99.875 percent over 200 to 20000 ticks (10^5-10^6 in the thorough tier); "
